@@ -60,6 +60,10 @@ type Action struct {
 	Mode   int      `json:"mode,omitempty"`  // 0 DeliverTx, 1 CheckTx, 2 ReCheckTx
 	Pad    int      `json:"pad,omitempty"`   // extra bytes in the source description (size limit)
 	Twice  bool     `json:"twice,omitempty"` // the same message two times in one transaction
+	// Co > 0: the transaction carries a second message in the name of validator key Co-1 (nonce
+	// CoNonce, otherwise the same report) whose signature is made with the first signer's key
+	Co      int   `json:"co,omitempty"`
+	CoNonce int32 `json:"cononce,omitempty"`
 	// AVS actions (kinds "avs*")
 	Avs *AvsAct `json:"avs,omitempty"`
 	// Ethereum transaction (kind "ethTx")
@@ -456,7 +460,15 @@ func (m *Machine) Apply(a *Action) (Outcome, error) {
 			msgs = append(msgs, msg)
 		}
 		other := m.Keys[(a.Key+1)%len(m.Keys)]
-		bz, err := c.BuildPriceTx(key, sim.PriceSig(a.Sig), other, msgs...)
+		var bz []byte
+		var err error
+		if a.Co > 0 {
+			co := m.Keys[(a.Co-1)%len(m.Keys)]
+			msgs = []sdk.Msg{msg, sim.BuildPriceMsg(co, a.Feeder, a.Src, entries, a.Based, a.CoNonce)}
+			bz, err = c.BuildPriceTxMulti([]sim.ConsKey{key, co}, []sim.ConsKey{key, key}, msgs...)
+		} else {
+			bz, err = c.BuildPriceTx(key, sim.PriceSig(a.Sig), other, msgs...)
+		}
 		if err != nil {
 			return Outcome{}, err
 		}
@@ -500,7 +512,7 @@ func (m *Machine) Apply(a *Action) (Outcome, error) {
 	case "regToken":
 		tok := make([]byte, 32)
 		copy(tok, []byte{0xaa, byte(a.N), byte(a.N >> 8), 0x01})
-		return fromCall(c.Precompile(m.caller(a.Caller), sim.AssetsPrecompileAddr, c.AssetsABI(), "registerToken", uint32(a.Lz), tok, regTokenDecimals(a), fmt.Sprintf("tok-%d", a.N), "probe", fmt.Sprintf("TOK%d,Ethereum,8%s", a.N, []string{"", ",0", ",7", ",10", ",0,0x01"}[a.Ident%5])))
+		return fromCall(c.Precompile(m.caller(a.Caller), sim.AssetsPrecompileAddr, c.AssetsABI(), "registerToken", uint32(a.Lz), tok, regTokenDecimals(a), fmt.Sprintf("tok-%d", a.N), "probe", fmt.Sprintf("TOK%d,Ethereum,8%s", a.N, []string{"", ",0", ",7", ",10", ",0,0x01", ",1", ",2"}[a.Ident%7])))
 	case "updToken":
 		as := m.W.Cfg.Assets[a.Asset]
 		return fromCall(c.Precompile(m.caller(a.Caller), sim.AssetsPrecompileAddr, c.AssetsABI(), "updateToken", uint32(as.LzID), pad32b(as.AddrBytes()), "probe-"+fmt.Sprint(a.N)))
